@@ -4,7 +4,7 @@
    NV.Proto.SharedClasses (hand classification of NV.gen.SharedState, the nm/linker/relocation inventory of nano_vmd). *)
 From Coq Require Import NArith ZArith List Bool.
 From NV Require Import Base.Bytes gen.VmdConsts gen.VmdFacts gen.SharedState
-                       Proto.Vmd Proto.VmdProofs Proto.Sessions Proto.SessionsProofs Proto.SharedClasses Proto.SharedClassesProofs.
+                       Proto.Vmd Proto.VmdProofs Proto.Sessions Proto.SessionsProofs Proto.SharedClasses Proto.SharedClassesProofs Proto.SessionsVmd.
 Import ListNotations.
 Local Open Scope N_scope.
 
@@ -57,6 +57,17 @@ Theorem C17_session_result : forall reply sched ls0 c,
   l_kind l = l_kind (ls0 c) /\ l_blob l = l_blob (ls0 c).
 Proof. exact session_result. Qed.
 Print Assumptions C17_session_result.
+
+(* the two models joined: with the handler of Proto/Vmd.v as the sessions' reply function, the bytes a concurrent client ends
+   up with are the bytes client_thread answers to that client's request alone, in any state d the others left the daemon in *)
+Theorem C17_concurrent_reply_is_handler_reply : forall c O sched ls0 cl d,
+  init_ok ls0 ->
+  (budget (ls0 cl) <= count_occ Nat.eq_dec sched cl)%nat ->
+  Vmd.alive d = true ->
+  l_out (snd (run (handler_reply c O) sched (shared0, ls0)) cl) =
+  fst (client_thread c O (request (l_kind (ls0 cl)) (l_blob (ls0 cl))) None d).
+Proof. exact concurrent_reply_is_handler_reply. Qed.
+Print Assumptions C17_concurrent_reply_is_handler_reply.
 
 (* the client counter equals the number of sessions in flight at every point of every schedule, and is 0 when all are done *)
 Theorem C17_active_balanced : forall reply sched sh ls n,
